@@ -34,6 +34,8 @@ def shards(tier, seed):
             items.append(("sel", si, k, n, tier))
     for cfg in range(16):
         items.append(("types", cfg, tier))
+    for si in range(len(seeds.K_DOCS) + len(seeds.K_MUTATIONS)):
+        items.append(("mixed", si, tier))
     items.append(("default_resolver", tier))
     items.append(("envelope", tier))
     return items
@@ -101,6 +103,8 @@ def run_shard(item):
             _shard_sel(item, out)
         elif kind == "types":
             _shard_types(item, out)
+        elif kind == "mixed":
+            _shard_mixed(item, out)
         elif kind == "default_resolver":
             _shard_default_resolver(item, out)
         elif kind == "envelope":
@@ -136,6 +140,26 @@ def _shard_sel(item, out):
             out["tables"]["rewrite_kinds"][kk] = vv
         for kk, vv in stats["kinds_discarded"].items():
             out["tables"]["rewrite_kinds_discarded"][kk] = vv
+
+
+def _shard_mixed(item, out):
+    """the same documents (d <= 1) on an engine whose fields alternate between sequential and concurrent sibling / list coercion"""
+    _, si, tier = item
+    schema = seeds.K
+    per = {}
+    n = 0
+    for td in schema.types:
+        if td.kind == "OBJECT":
+            for f in td.fields:
+                n += 1
+                per["%s.%s" % (td.name, f.name)] = {"parent_concurrently": n % 2 == 0, "list_concurrently": n % 3 != 0}
+    engine = explore.engine_for("K-mixed", schema, typecfg={"resolver_kwargs": per})
+    roots = {}
+    for d, level, trail, stats in explore.bfs(schema, doc.parse(_seed_text(si)), 1):
+        text = run_cases(schema, engine, d, trail + ("mixed-concurrency",), VARIANTS[tier][:1], out, roots=roots)
+        out["counts"]["states"] += 1
+        out["sets"]["state_hashes"].add(explore.h64("mixed" + text))
+        out["sets"]["nontrivial_hashes"].add(explore.h64("mixed" + text))
 
 
 TYPE_DOCS = [
